@@ -232,13 +232,44 @@ func main() {
 	afterDeq := false // engine thread only
 	switch *modeFlag {
 	case "free":
-	case "lazy":
-		driver.VerifYield = func(point string, q *driver.CommandQueue) {
-			if point == "signal" || point == "enq" {
-				for i := 0; d.VerifEngineRunning() && i < 2000000; i++ {
-					time.Sleep(5 * time.Microsecond)
+	case "lazy", "lazynoise":
+		// lazynoise: the lazy gate plus seeded host delays everywhere else (the schedule class stays "lazy")
+		withNoise := *modeFlag == "lazynoise"
+		var raSelects int64   // how often runAsync came back to the top of its loop
+		var needSelects int64 // value raSelects must reach before the last signal has been fully handled
+		idle := func() {
+			// the engine is idle only when runAsync has finished handling the last signal (it may still be about to
+			// start the engine goroutine) and no engine goroutine is running
+			for i := 0; i < 2000000; i++ {
+				if atomic.LoadInt64(&raSelects) >= atomic.LoadInt64(&needSelects) && !d.VerifEngineRunning() {
+					return
 				}
+				time.Sleep(5 * time.Microsecond)
+			}
+		}
+		driver.VerifYield = func(point string, q *driver.CommandQueue) {
+			if point == "select" {
+				atomic.AddInt64(&raSelects, 1)
+				return
+			}
+			if withNoise && point != "signal" && point != "enq" && point != "unsub" {
+				mu.Lock()
+				n := rng.Intn(6)
+				us := rng.Intn(200)
+				mu.Unlock()
+				if n == 0 {
+					time.Sleep(time.Duration(us) * time.Microsecond)
+				}
+			}
+			// "unsub": a drain also returns only once the engine is idle, so that the runner's report (which reads
+			// the engine time right after the last drain) does not race with the trailing idle tick
+			if point == "signal" || point == "enq" || point == "unsub" {
+				idle()
 				atomic.AddInt64(&held, 1)
+				if point == "signal" {
+					// runAsync is parked in select now; it is back there once this signal has been handled
+					atomic.StoreInt64(&needSelects, atomic.LoadInt64(&raSelects)+1)
+				}
 			}
 		}
 	case "eager":
